@@ -76,6 +76,7 @@ type obs struct {
 	kind      string // reply | drop | forward | panic | sandbox
 	reply     *parsed
 	replyMAC  string // none | ok | bad
+	replyMeta string // "<spi>:<alg>" of the reply's authenticator
 	fwd       *parsed
 	fwdFrom   netip.AddrPort
 	wrongSock bool
@@ -103,8 +104,10 @@ func ntpRequest(fill byte) []byte {
 	return b
 }
 
+// isSentinelReply: no crafted packet uses port 64999, so either position identifies the
+// sentinel's answer (a listener that forgets to exchange the ports still answers it).
 func isSentinelReply(r *parsed) bool {
-	return r.l4 == "udp" && int(r.udp.DstPort) == sentinelSP
+	return r.l4 == "udp" && (int(r.udp.DstPort) == sentinelSP || int(r.udp.SrcPort) == sentinelSP)
 }
 
 func handle(p *pkt) string {
@@ -307,6 +310,7 @@ func fmtReply(p *pkt, r *parsed) string {
 			if len(opt.OptData) == scion.PacketAuthOptDataLen {
 				spi, alg := scion.PacketAuthOptMetadata(opt)
 				au = fmt.Sprintf("%d:%d", spi, alg)
+				last.replyMeta = au
 				if r.l4 == "udp" && replyMACok(r, opt) {
 					last.replyMAC = "ok"
 				} else {
